@@ -1055,3 +1055,98 @@ pub extern "C" fn chk_arraybuf_big(ptr: *const u8, n: usize) -> u32 {
     cover(18);
     1
 }
+
+// ------------------------------------------------------------------------------------------------
+// C07 / C05: the growable buffer under allocation failure (the allocator refuses requests above a threshold, both in
+// the engine and in the native replay): out-of-memory is REPORTED, never an abort; what is returned is still correct
+// ------------------------------------------------------------------------------------------------
+/// reference frame into a fixed array (no heap, so that the oracle is not affected by the failing allocator)
+fn spec_encode_into(p: &[u8], out: &mut [u8]) -> usize {
+    let mut n = 0;
+    for b in START.iter() {
+        out[n] = *b;
+        n += 1;
+    }
+    let mut run = 0;
+    for &b in p {
+        out[n] = b;
+        n += 1;
+        if b == 0x1b {
+            run += 1;
+            if run == 4 {
+                let mut i = 0;
+                while i < 4 {
+                    out[n] = 0x1b;
+                    n += 1;
+                    i += 1;
+                }
+                run = 0;
+            }
+        } else {
+            run = 0;
+        }
+    }
+    let pad = (4 - n % 4) % 4;
+    let mut i = 0;
+    while i < pad {
+        out[n] = 0;
+        n += 1;
+        i += 1;
+    }
+    for b in [0x1b, 0x1b, 0x1b, 0x1b, 0x1a, pad as u8] {
+        out[n] = b;
+        n += 1;
+    }
+    let c = crate::spec::crc16_x25(&out[..n]);
+    out[n] = (c & 0xff) as u8;
+    out[n + 1] = (c >> 8) as u8;
+    n + 2
+}
+
+#[no_mangle]
+pub extern "C" fn chk_vec_oom(ptr: *const u8, n: usize) -> u32 {
+    let p = unsafe { input(ptr, n) };
+    if p.len() > 300 {
+        return 0;
+    }
+    let mut want = [0u8; 1024];
+    let wn = spec_encode_into(p, &mut want);
+    // buffer encoder into a Vec: Ok(frame) or Err(OutOfMemory), never an abort
+    match encode::<Vec<u8>>(p) {
+        Ok(f) => {
+            if f.as_slice() != &want[..wn] {
+                fail(721);
+            }
+        }
+        Err(OutOfMemory) => cover(72),
+    }
+    // push decoder with a Vec buffer: the frame is delivered or out-of-memory is reported
+    let mut d = Decoder::<Vec<u8>>::new();
+    let mut delivered = false;
+    let mut oom = false;
+    let mut i = 0;
+    while i < wn {
+        match d.push_byte(want[i]) {
+            Ok(None) => {}
+            Ok(Some(m)) => {
+                if m != p || i != wn - 1 {
+                    fail(722);
+                }
+                delivered = true;
+            }
+            Err(DecodeErr::OutOfMemory) => oom = true,
+            Err(DecodeErr::DiscardedBytes(_)) => {}
+            Err(_) => {
+                if !oom {
+                    fail(723);
+                }
+            }
+        }
+        i += 1;
+    }
+    if delivered == oom {
+        fail(724);
+    }
+    cover(71);
+    wn as u32
+}
